@@ -62,7 +62,28 @@ func init() {
 						}
 						n++
 						k := fmt.Sprintf("func=%s %s#%d", prog.FnName(fn), what, n)
-						x.guardedSite(k+" only-if-not-closed", ins, notClosed, nil)
+						if fo, _ := fn.Object().(*types.Func); fo != nil && !fo.Exported() && !x.quietGuarded(ins, notClosed) {
+							// an unexported helper ("…Locked"): the test is the callers' — every call site in the
+							// package must be reached only with the flag seen false
+							var sites []ssa.CallInstruction
+							for _, g := range x.P.FuncsIn(psPkg) {
+								if o := g.Origin(); o != nil && o != g {
+									continue
+								}
+								sites = append(sites, callsToIn(g, fo)...)
+							}
+							all := len(sites) > 0
+							bad := ""
+							for _, cs := range sites {
+								if !x.quietGuarded(cs, notClosed) {
+									all = false
+									bad = x.pos(cs)
+								}
+							}
+							x.check(all, k+" only-if-not-closed", x.pos(ins), "every caller of this unexported helper tests the closed flag first", "the "+what+" sits in a helper that is called at "+bad+" without the closed flag having been seen false")
+						} else {
+							x.guardedSite(k+" only-if-not-closed", ins, notClosed, nil)
+						}
 						if what == "close" {
 							marked := false
 							for _, st := range storesTo(fn, fieldNamed(fn, "Subscription", "closed")) {
